@@ -187,6 +187,7 @@ fn c18(ctx: &Ctx) -> i32 {
 }
 
 pub mod c02win;
+pub mod c07dir;
 pub mod probe;
 pub mod c03;
 pub mod c04;
